@@ -911,10 +911,34 @@ func famStreams(dir string, seed int64, tier string) {
 			}
 		}
 		var sinks []*sinkSpec
-		for j, m := 0, r.Intn(6); j < m; j++ {
+		m := r.Intn(6)
+		if i%12 == 0 {
+			m = 7 + r.Intn(30) // more sinks than any fixed-size scratch array: 7..36
+		}
+		for j := 0; j < m; j++ {
 			sinks = append(sinks, randSink(r, g, 2, r.Intn(3) == 0, true, n))
 		}
 		runCopy(src, sinks, "random")
+	}
+
+	// many plain sinks in one Copy (more than any fixed-size scratch array holds): 8, 9, ... 65
+	for _, m := range []int{8, 9, 10, 16, 17, 32, 33, 65} {
+		for trial := 0; trial < 3; trial++ {
+			n := 1 + r.Intn(6)
+			var sinks []*sinkSpec
+			for j := 0; j < m; j++ {
+				k := 0
+				if r.Intn(3) == 0 {
+					k = 1 + r.Intn(n+1)
+				}
+				sinks = append(sinks, &sinkSpec{kind: "rec", id: j + 1, k: k})
+			}
+			src := &procSpec{kind: "tokens", ts: smallTokens(r, n)}
+			if trial == 2 {
+				src.cont = &procSpec{kind: "fail"}
+			}
+			runCopy(src, sinks, "many-sinks")
+		}
 	}
 
 	// ---- proc cases ----
